@@ -17,9 +17,6 @@ type APUChan struct {
 	// DacKnown / LenKnown: the guest has determined the DAC state / loaded the length counter
 	// (the statements say nothing about the state the machine starts in).
 	DacKnown, LenKnown bool
-	// SweepRuns: an adding sweep that did not overflow at the trigger is running; it may overflow at a later
-	// sweep clock (not modelled), so the status becomes unspecified at the next frame-sequencer step
-	SweepRuns bool
 }
 
 type APU struct {
@@ -31,7 +28,12 @@ type APU struct {
 	// playing; where it goes is outside the statements) until it is rewritten with channel 3 off
 	WaveUnk [16]bool
 	Ch      [4]APUChan
-	Step    int // index of the next frame-sequencer step (0..7); even steps clock length
+	Step    int // index of the next frame-sequencer step (0..7); even steps clock length; steps 2 and 6 clock the sweep
+	// channel 1's frequency sweep unit (gbdev wiki "Frequency Sweep"): the shadow frequency and the timer are loaded,
+	// and the unit's enabled flag latched, by a trigger; the flag keeps its value until the next trigger
+	SwShadow  int
+	SwTimer   int
+	SwEnabled bool
 }
 
 // NewAPU is the state the machine starts in: powered on, every register and every channel
@@ -70,6 +72,48 @@ func maxLen(ch int) int {
 
 func (a *APU) freq1() int { return int(a.Reg[0x03]) | int(a.Reg[0x04]&7)<<8 }
 
+// sweepCalc is the sweep unit's frequency calculation with the shift and direction NR10 holds now.
+func (a *APU) sweepCalc() int {
+	d := a.SwShadow >> uint(a.Reg[0]&7)
+	if a.Reg[0]&0x08 != 0 {
+		return a.SwShadow - d
+	}
+	return a.SwShadow + d
+}
+
+// sweepClock is one 128 Hz clock of the sweep timer. When the timer runs out it is reloaded with the period NR10
+// holds now (8 for period 0); with the unit enabled and a non-zero period the new frequency is calculated: above
+// 2047 the channel is switched off; otherwise, with a non-zero shift, it is written back to the shadow register and
+// NR13/NR14 and the calculation and overflow check are made once more with the new value.
+func (a *APU) sweepClock() {
+	if !a.SwEnabled {
+		return
+	}
+	a.SwTimer--
+	if a.SwTimer > 0 {
+		return
+	}
+	period := int(a.Reg[0]>>4) & 7
+	if period == 0 {
+		a.SwTimer = 8
+		return
+	}
+	a.SwTimer = period
+	n := a.sweepCalc()
+	if n > 2047 {
+		a.Ch[0].On = false
+		return
+	}
+	if a.Reg[0]&7 != 0 {
+		a.SwShadow = n
+		a.Reg[0x03] = uint8(n)
+		a.Reg[0x04] = a.Reg[0x04]&0x40 | uint8(n>>8)&7
+		if a.sweepCalc() > 2047 {
+			a.Ch[0].On = false
+		}
+	}
+}
+
 // Write applies a guest write to FF10-FF3F.
 func (a *APU) Write(addr uint16, v uint8) {
 	if addr >= 0xff30 && addr <= 0xff3f {
@@ -91,8 +135,9 @@ func (a *APU) Write(addr uint16, v uint8) {
 			}
 			for i := range a.Ch {
 				a.Ch[i].On, a.Ch[i].Dac, a.Ch[i].LenEn = false, false, false
-				a.Ch[i].Unspec, a.Ch[i].DacKnown, a.Ch[i].SweepRuns = false, true, false
+				a.Ch[i].Unspec, a.Ch[i].DacKnown = false, true
 			}
+			a.SwEnabled, a.SwShadow, a.SwTimer = false, 0, 0
 		} else if !a.Power {
 			a.Power = true
 			a.Step = 0
@@ -123,7 +168,7 @@ func (a *APU) Write(addr uint16, v uint8) {
 		a.Reg[i], a.Known[i] = v, true
 		a.Ch[ch].Dac, a.Ch[ch].DacKnown = v&0xf8 != 0, true
 		if !a.Ch[ch].Dac {
-			a.Ch[ch].On, a.Ch[ch].Unspec, a.Ch[ch].SweepRuns = false, false, false
+			a.Ch[ch].On, a.Ch[ch].Unspec = false, false
 		}
 	case 0xff1a:
 		a.Reg[i], a.Known[i] = v, true
@@ -160,19 +205,16 @@ func (a *APU) Write(addr uint16, v uint8) {
 				c.Unspec = true // counter at its maximum without having been reloaded: clocked or not is not fixed
 			}
 			c.On = c.Dac
-			c.SweepRuns = false
 			if ch == 0 {
-				period, shift, negate := (a.Reg[0]>>4)&7, uint(a.Reg[0]&7), a.Reg[0]&0x08 != 0
-				f := a.freq1()
-				switch {
-				case shift > 0 && !negate && f+f>>shift > 2047:
+				period, shift := int(a.Reg[0]>>4)&7, a.Reg[0]&7
+				a.SwShadow = a.freq1()
+				a.SwTimer = period
+				if period == 0 {
+					a.SwTimer = 8
+				}
+				a.SwEnabled = period != 0 || shift != 0
+				if shift != 0 && a.sweepCalc() > 2047 {
 					c.On = false // the sweep calculation at trigger overflows
-				case period == 0 && shift == 0:
-					// no sweep
-				case negate:
-					// subtracting sweeps never overflow
-				default:
-					c.SweepRuns = c.On // an adding sweep is running and may overflow later: not modelled
 				}
 			}
 		}
@@ -189,8 +231,8 @@ func (a *APU) Write(addr uint16, v uint8) {
 
 // FrameStep is one step of the 512 Hz frame sequencer.
 func (a *APU) FrameStep() {
-	if a.Ch[0].SweepRuns {
-		a.Ch[0].Unspec = true
+	if a.Step == 2 || a.Step == 6 {
+		a.sweepClock()
 	}
 	if a.Step%2 == 0 {
 		for i := range a.Ch {
